@@ -1092,3 +1092,93 @@ func (r *Run) sliceToArrayPointer(fr *frame, t_dst, t_src types.Type, x value) v
 	}
 	panic(fmt.Sprintf("unsupported conversion: %s  -> %s, dynamic type %T", t_src, t_dst, x))
 }
+
+
+// ---- symbolic indexes into scalar slices/arrays (no forking) ----
+
+type symCell struct {
+	elems []value
+	idx   *Term // 64-bit index term, known to be in range
+}
+
+func scalarElems(xs []value) bool {
+	if len(xs) == 0 || len(xs) > 4096 {
+		return false
+	}
+	k := kindOfValue(xs[0])
+	if k == types.Invalid || k == types.Float32 {
+		return false
+	}
+	for _, x := range xs {
+		if kindOfValue(x) != k {
+			return false
+		}
+	}
+	return true
+}
+
+// symIndexTerm bounds-checks a symbolic index and returns it as a 64-bit term.
+func (r *Run) symIndexTerm(fr *frame, s Sym, length int) *Term {
+	t := r.ts.Resize(s.T, SBV64, kindSigned(s.K))
+	in := r.ts.Cmp(OpULt, t, r.ts.Const(SBV64, uint64(length)))
+	if !r.branch(in) {
+		r.targetPanicStr(fr, fmt.Sprintf("runtime error: index out of range [sym] with length %d", length))
+	}
+	return t
+}
+
+// selectTerm builds elems[idx] as a run-compressed if-then-else chain.
+func (r *Run) selectTerm(elems []value, idx *Term) value {
+	k := kindOfValue(elems[0])
+	ts := r.ts
+	// runs of equal terms
+	type run struct {
+		end int // last index of the run
+		t   *Term
+	}
+	var runs []run
+	for i, e := range elems {
+		t := r.term(e)
+		if n := len(runs); n > 0 && runs[n-1].t == t {
+			runs[n-1].end = i
+		} else {
+			runs = append(runs, run{i, t})
+		}
+	}
+	res := runs[len(runs)-1].t
+	for i := len(runs) - 2; i >= 0; i-- {
+		c := ts.Cmp(OpULe, idx, ts.Const(SBV64, uint64(runs[i].end)))
+		res = ts.Ite(c, runs[i].t, res)
+	}
+	return symOrConc(res, k)
+}
+
+func (r *Run) symSelect(fr *frame, elems []value, s Sym) value {
+	if !scalarElems(elems) {
+		return elems[r.intIndex(fr, s, len(elems), "index")]
+	}
+	idx := r.symIndexTerm(fr, s, len(elems))
+	return r.selectTerm(elems, idx)
+}
+
+// symIndexAddr returns a cell standing for elems[idx]; loads see the selected
+// value, stores update every element conditionally.
+func (r *Run) symIndexAddr(fr *frame, elems []value, s Sym) *value {
+	idx := r.symIndexTerm(fr, s, len(elems))
+	cell := new(value)
+	*cell = r.selectTerm(elems, idx)
+	if r.symCells == nil {
+		r.symCells = make(map[*value]*symCell)
+	}
+	r.symCells[cell] = &symCell{elems: elems, idx: idx}
+	return cell
+}
+
+func (r *Run) symStore(sc *symCell, v value) {
+	k := kindOfValue(sc.elems[0])
+	vt := r.term(v)
+	for i := range sc.elems {
+		c := r.ts.Eq(sc.idx, r.ts.Const(SBV64, uint64(i)))
+		sc.elems[i] = symOrConc(r.ts.Ite(c, vt, r.term(sc.elems[i])), k)
+	}
+}
